@@ -2,10 +2,82 @@
 import gen_prog
 from progcheck import run_prog_check
 
-PROPS = ["Props/C15alg.v", "Props/C15edges.v"]
+PROPS = ["Props/C15alg.v", "Props/C15edges.v", "Props/C15target.v"]
 RULE = ("C15: (1) random operation sequences on the real VectorClock (new/extend/increment/update/partial_cmp/get on four registers, including the underflow and overflow panics) compared with the model; "
         "(2) the clock of the current task after every operation of every generated program compared between runtime and model; "
-        "(3) happens-before oracle on the crate's traces: for every direct edge (program order, spawn, join, unlock->lock, send->receive, atomic write->read/rmw) the later clock must dominate the earlier one.")
+        "(3) happens-before oracle on the crate's traces: for every direct edge (program order, spawn, join, unlock->lock, send->receive, atomic write->read/rmw) the later clock must dominate the earlier one; "
+        "(4) replay restricted to a target clock: call sequences on the real ReplayScheduler (built from a Schedule value, set_target_clock, with and without set_allow_incomplete) with fabricated tasks carrying "
+        "arbitrary clocks, compared call by call with Sched/ReplayTarget.v (answers, panics, values of the data source after skipped random steps); the generator walks the schedule the way the runtime would "
+        "(a guide written independently in Python keeps most sequences alive to the end of the schedule), a fifth of the sequences is unguided.")
+
+
+def _vle(a, b):
+    """VectorClock::partial_cmp(a, b) in {Less, Equal} (generator guide only)"""
+    lt = len(a) < len(b)
+    gt = len(a) > len(b)
+    for x, y in zip(a, b):
+        lt |= x < y
+        gt |= x > y
+    return not gt
+
+
+def gen_rtarget(rng):
+    nt = rng.randint(1, 5)
+    guided = rng.random() < 0.8
+    width = nt + 1 if rng.random() < 0.7 else rng.randint(1, nt + 1)
+    target = None if rng.random() < 0.12 else [rng.choice([0, 1, 2, 2, 3, 3, 4]) for _ in range(width)]
+    steps = []
+    for _ in range(rng.randint(0, 14)):
+        steps.append("t%d" % rng.randrange(nt))
+        while rng.random() < 0.3:
+            steps.append("r")
+    if rng.random() < 0.05 and steps:
+        steps.insert(0, "r")
+    allow = "1" if rng.random() < 0.5 else "0"
+    clocks = [[rng.choice([0, 0, 0, 1, 1, 2]) for _ in range(rng.randint(i + 1, nt + 1))] for i in range(nt)]
+    calls = []
+    if rng.random() < 0.9:
+        calls.append("E")
+    pos = 0
+    for _ in range(rng.randint(1, 18)):
+        nxt = steps[pos] if pos < len(steps) else None
+        if (nxt == "r" and (guided or rng.random() < 0.85)) or (not guided and rng.random() < 0.05):
+            calls.append("U")
+            pos += 1
+            continue
+        if guided and nxt is not None and rng.random() < 0.93:
+            named = int(nxt[1:])
+            offered = sorted(set([named] + [i for i in range(nt) if rng.random() < 0.6]))
+        else:
+            offered = [i for i in range(nt) if rng.random() < 0.8] or [rng.randrange(nt)]
+        calls.append("T:" + "/".join("%d@%s" % (i, ".".join(map(str, clocks[i]))) for i in offered))
+        # where the scheduler will stand afterwards (guide)
+        ran = None
+        while pos < len(steps):
+            w = steps[pos]
+            if w == "r":
+                break
+            t = int(w[1:])
+            if t not in offered:
+                break
+            pos += 1
+            if target is None or _vle(clocks[t], target):
+                ran = t
+                break
+            while pos < len(steps) and steps[pos] == "r":
+                pos += 1
+        # the task that ran moves on: usually within the target's past, sometimes out of it
+        grow = [ran] if ran is not None else []
+        grow += [i for i in offered if rng.random() < 0.15]
+        for i in grow:
+            k = rng.randrange(len(clocks[i]))
+            if target is not None and k < len(target) and clocks[i][k] >= target[k] and rng.random() < 0.7:
+                continue
+            clocks[i][k] += 1
+        if rng.random() < 0.03:
+            calls.append("E")
+    return "rtarget %d %s %s %s %s" % (rng.randrange(2 ** 40), "-" if target is None else ".".join(map(str, target)), allow, ",".join(steps) or "-", ",".join(calls))
+
 
 
 def gen_clock_case(rng):
@@ -43,4 +115,214 @@ def run(tier):
                            "examples": [{"case": cc[i], "model": cmo[i], "impl": cio[i]} for i in cm[:3]]})
         # direct algebra oracle on the implementation's answers: partial_cmp must be antisymmetric and update an upper bound
     ctx.sample({"case": cc[0], "impl": cio[0]})
+    # (4) replay restricted to a target clock, at the level of the scheduler's decisions
+    rc = [gen_rtarget(rng) for _ in range(4000 if tier == "quick" else 60000)]
+    rmo, rio, rm = ctx.differential("sched", rc)
+    shapes = {}
+    for o in rio:
+        last = (o or "?").split(",")[-1][:1]
+        shapes[last] = shapes.get(last, 0) + 1
+    for k, v in shapes.items():
+        ctx.dist("rtarget.last_answer." + {"P": "panic", "x": "none", "t": "task", "u": "draw", "e": "new_execution"}.get(k, "other"), v)
+    skipped = sum(1 for c, o in zip(rc, rio) if c.split(" ")[2] != "-" and o and o.count(",t") + o.count(",u") < c.split(" ")[5].count(",") and not o.endswith("P"))
+    ctx.dist("rtarget.sequences_alive_to_the_end", sum(1 for c, o in zip(rc, rio) if o and len(o.split(",")) == len(c.split(" ")[5].split(","))))
+    ctx.log("replay-target layer: %d call sequences, %d model/impl mismatches" % (len(rc), len(rm)))
+    if rm:
+        ctx.disagreements_checked += len(rm)
+        # a disagreement where the implementation does not run a task that is offered with a clock below the target is
+        # a failing input of the clause itself ("never drops a step the target depends on")
+        reported = 0
+        for i in rm:
+            if reported < 3 and rmo[i] and rio[i] and dropped_dependency(rc[i], rmo[i], rio[i]):
+                reported += 1
+                ctx.violation({"layer": "sched", "cases": [rc[i]], "implementation_answer": rio[i], "model_answer": rmo[i],
+                               "why": "ReplayScheduler with a target clock did not run a step whose task is offered with a clock below the target "
+                                      "(the verified model Sched/ReplayTarget.v runs it: C15_target_keeps_below)"})
+        ctx.broken.append({"kind": "correspondence", "layer": "sched", "what": "Sched/ReplayTarget.v and replay.rs disagree on %d of %d call sequences; the theorems of Props/C15target.v are about a model that no longer describes the code" % (len(rm), len(rc)),
+                           "examples": [{"case": rc[i], "model": rmo[i], "impl": rio[i]} for i in rm[:3]]})
+    ctx.sample({"case": rc[0], "impl": rio[0]})
+    # (5) whole executions replayed with a target clock on the real crate: every record whose clock is below the target must be
+    # reproduced (same task, operation, result and clock)
+    from common import load_known_findings
+    known = {k["id"]: k for k in load_known_findings() if k.get("kind") == "known"}
+    tcases = list(TARGET_CORPUS)
+    feats = tuple(f for f in gen_prog.ALL if f not in ("panic",))
+    for i in range(500 if tier == "quick" else 8000):
+        if i % 3 == 0:
+            f = gen_prog.gen_focus(rng, rng.choice(["atomic", "chan", "mutex", "sem", "condvar", "barrier"])).split(" ")
+            objs, bodies = f[4], f[5]
+        else:
+            objs, bodies = gen_prog.gen_program(rng, max_bodies=4, max_ops=rng.choice([3, 5, 7]), features=feats)
+        tcases.append("replaytarget %s %d %d 1 none %s %s" % (rng.choice(["random", "random", "pct"]), rng.getrandbits(64), rng.randint(1, 3), objs, bodies))
+    tout = ctx.run_impl("prog", tcases)
+    ctx.evaluations += len(tcases)
+    ctx.traces_validated += len(tcases)
+    tstats = {}
+    nv = 0
+    for c, o in zip(tcases, tout):
+        if not o or o.startswith("SKIP") or o.startswith("ERR") or o.startswith("ABORT"):
+            tstats["skipped"] = tstats.get("skipped", 0) + 1
+            continue
+        try:
+            vs = judge_target_replay(o)
+        except Exception as ex:      # an answer that cannot be parsed is a broken leg, not a pass
+            ctx.broken.append({"kind": "oracle", "what": "replaytarget answer could not be judged: %r" % (ex,), "examples": [c, o[:300]]})
+            continue
+        for v, detail in vs:
+            tstats[v] = tstats.get(v, 0) + 1
+            if v in ("F36", "F37", "F38") and v in known:
+                ctx.known(v, known[v]["what"])
+            elif v not in ("ok", "unordered_observation_diverged"):
+                nv += 1
+                if nv <= 3:
+                    ctx.violation({"layer": "prog", "cases": [c], "implementation_answer": o[:3000],
+                                   "why": "replay restricted to a target clock dropped a step the target depends on: " + detail})
+        if any(v == "ok" for v, _ in vs):
+            ctx.note_nontrivial(c)
+    for k, v in tstats.items():
+        ctx.dist("replaytarget." + k, v)
+    ctx.log("replay-target runs: %d programs, %s" % (len(tcases), tstats))
     return ctx.finish()
+
+
+# directed programs of the target-clock leg: the witness of F36 first (main spawns T1, T2, T3; T1 stores a0 - which T2's load
+# reads -, then receives what T3 sends; the target is T2's last record: T3 is dropped, T1 blocks in recv and its next step is
+# "not runnable"), then the shapes of shuttle/tests/basic/replay.rs::replay_causality
+TARGET_CORPUS = [
+    "replaytarget random 1 1 1 none a0,a0,cu,e sp1;sp2;sp3|a0.st.1;rc2;a1.st.1|a0.ld;yd|sd2.0.7 t2",
+    "replaytarget random 5 1 1 none a0,a0,cu,e sp1;sp2;sp3|a0.st.1;rc2;a1.st.1|a0.ld;yd|sd2.0.7 t2",
+    "replaytarget random 6 1 1 none a0,a0,cu,e sp1;sp2;sp3|a0.st.1;rc2;a1.st.1|a0.ld;yd|sd2.0.7 t2",
+    "replaytarget random 3 1 1 none a0,m sp1;sp2;sp3|lk1;a0.st.1;ul1|lk1;a0.ld;ul1|rn;rn;yd t2",
+    "replaytarget pct 4 2 1 none a0,m sp1;sp2;sp3|lk1;a0.st.1;ul1|lk1;a0.ld;ul1|rn;rn;yd t2",
+    # witness of F38
+    "replaytarget pct 16874011670326697088 2 1 none a0,s3:f,s1:u sp1;sp2;sp3;st1.1;sa2.2;sr1.2;st2.1;sr1.1;sa2.1;jn0|sa2.3;sr2.1;sr2.1;st1.1;sr2.1|sv2;sr2.1;st1.1;st1.1|sr2.1;sr2.1;sr2.2;sa2.1;sa2.1;sv1",
+]
+
+
+def _parse_records(text):
+    """O<task>:<tag>:<vals>@<clock> tokens of a '|'-separated log -> [(task, tag, vals, clock)]"""
+    out = []
+    for tok in text.split("|"):
+        if tok.startswith("O") and "@" in tok:
+            head, clk = tok[1:].rsplit("@", 1)
+            f = head.split(":")
+            try:
+                out.append((int(f[0]), int(f[1]), f[2], [int(x) for x in clk.split(".") if x != ""]))
+            except (ValueError, IndexError):
+                pass
+    return out
+
+
+SPAWN_TAGS = (1, 31)
+# records whose result is a function of the operation's happens-before past alone: spawn (child id), join, atomics (every
+# earlier write is ordered before a later read).  Other results may carry "negative information" that is no
+# happens-before edge - a failed try_acquire, Empty from try_recv, available_permits, a closed flag, which permit batch an
+# acquisition consumed - and may legitimately depend on dropped steps; for those only "the step was executed" is required.
+VALUE_TAGS = (1, 31, 2, 7)
+
+
+def _cmp_form(e):
+    """what must be reproduced of a record: task and operation, and the result where it is determined by the record's
+    happens-before past.  The clock is not compared (see above)."""
+    return (e[0], e[1], e[2] if e[1] in VALUE_TAGS else "")
+
+
+def judge_target_replay(out):
+    """-> list of (verdict, detail) per restricted replay of one `replaytarget` answer; verdict in ok / F36 / F37 / F38 /
+    unordered_observation_diverged / violation"""
+    f = {}
+    res = []
+    toks = out.split(" ")
+    orig = None
+    cur = None
+    for t in toks:
+        if t.startswith("ORIG="):
+            orig = _parse_records(t[5:])
+        elif t.startswith("TGT="):
+            cur = {"tgt": t[4:]}
+        elif t.startswith("CLK=") and cur is not None:
+            cur["clk"] = [int(x) for x in t[4:].split(".") if x != ""]
+        elif t.startswith("R=") and cur is not None:
+            cur["r"] = t[2:]
+        elif t.startswith("LOG=") and cur is not None:
+            cur["log"] = _parse_records(t[4:])
+            res.append(cur)
+            cur = None
+    verdicts = []
+    for c in res:
+        T = c["clk"]
+        dep = [e for e in orig if _vle(e[3], T)]
+        tasks = sorted(set(e[0] for e in orig) | set(e[0] for e in c["log"]))
+        missing = None
+        extra = False
+        diverged = False
+        clock_diverged = False
+        for t in tasks:
+            fd = [e for e in dep if e[0] == t]
+            fr = [e for e in c["log"] if e[0] == t]
+            for x, y in zip(fd, fr):
+                if x[1] != y[1]:
+                    break
+                if x[3] != y[3]:
+                    clock_diverged = True
+                    break
+        for t in tasks:
+            # a result that is no function of the happens-before past (see VALUE_TAGS) came out differently: from there on
+            # the replay is a different execution of the program and nothing more is required of it
+            fd = [e for e in dep if e[0] == t]
+            fr = [e for e in c["log"] if e[0] == t]
+            for x, y in zip(fd, fr):
+                if x[1] != y[1]:
+                    break
+                if x[2] != y[2] and x[1] not in VALUE_TAGS:
+                    diverged = True
+                    break
+        for t in tasks:
+            d = [_cmp_form(e) for e in dep if e[0] == t]
+            r = [_cmp_form(e) for e in c["log"] if e[0] == t]
+            if r[:len(d)] != d:
+                k = next((i for i in range(len(d)) if i >= len(r) or r[i] != d[i]), 0)
+                missing = missing or (t, d[k], r[k] if k < len(r) else None)
+            if len(r) > len(d):
+                extra = True
+        if missing is None:
+            verdicts.append(("ok", None))
+            continue
+        blocked_beyond = False
+        if c["r"].startswith("replay-not-runnable:"):
+            try:
+                bt = int(c["r"].split(":")[1])
+                d = [_cmp_form(e) for e in dep if e[0] == bt]
+                r = [_cmp_form(e) for e in c["log"] if e[0] == bt]
+                blocked_beyond = r[:len(d)] == d          # the blocked task itself lost nothing: it is stuck in a later step
+            except ValueError:
+                pass
+        t, want, got = missing
+        detail = "target clock %s: task %d's record %s (clock below the target) is %s in the restricted replay, which ended with %s" % (
+            T, t, want, "missing" if got is None else "replaced by %s" % (got,), c["r"])
+        nondep_spawn = [i for i, e in enumerate(orig) if e[1] in SPAWN_TAGS and not _vle(e[3], T)]
+        later_spawn = nondep_spawn and any(e[1] in SPAWN_TAGS for e in orig[nondep_spawn[0] + 1:])
+        if diverged:
+            verdicts.append(("unordered_observation_diverged", detail))
+        elif later_spawn:
+            verdicts.append(("F37", detail))
+        elif clock_diverged:
+            verdicts.append(("F38", detail))
+        elif blocked_beyond or c["r"].startswith("replay-not-runnable") or (extra and (c["r"].startswith("replay-mismatch") or c["r"].startswith("deadlock"))):
+            # a task of the restricted replay is blocked (in a step beyond its dependencies, or in a step whose completion
+            # needed an event that is no happens-before predecessor - a close, a permit taken by a dropped task): the
+            # mechanism of F36.  A step that the scheduler wrongly drops does not block anybody: the task simply runs one
+            # step late and the schedule is used up before its last records (verdict `violation` below)
+            verdicts.append(("F36", detail))
+        else:
+            verdicts.append(("violation", detail))
+    return verdicts
+
+
+def dropped_dependency(case, model, impl):
+    """first differing answer: the model ran task t (whose clock is below the target) and the implementation did not"""
+    a, b = model.split(","), impl.split(",")
+    for x, y in zip(a, b):
+        if x != y:
+            return x.startswith("t")
+    return False
